@@ -34,6 +34,34 @@ def run(idx, rep, tier):
     c18.r5(_Proxy(rep, "R2"), rep) if False else _r2(idx, rep)
     c08.serial(idx, rep, "R3", aspects=("protocol", "save-once", "complete-wiring", "result-wiring"))
     c08.byline(idx, rep, "R3", "R3", tier, scenarios=("plain",), aspects=("schedule",))
+    # next_paths(collect=True): every line a member yields is appended to that member's result before it is handed to the caller
+    from . import runs_model as RM
+    fi, paths = RM.serial_rows(idx, "next_paths", collect=True)
+    bad = None
+    for p in paths:
+        ran = [v for kk, v in p.calls("run")]
+        failed = {t.split("(")[1].split(")")[0] for t, v in p.choices if t.startswith("run(") and v}
+        want = [(f"res{cp[2:]}", f"{cp}.L0") for cp in ran if cp not in failed]
+        got = [v for kk, v in p.calls("result.append")]
+        ys = [getattr(v, "text", v) for k, kk, v in p.trace if k == "yield"]
+        if got != want or ys != [w[1] for w in want]:
+            bad = bad or f"members run {ran} (failed {sorted(failed)}): appended {got}, yielded {ys}; documented: each yielded line is first appended to its own member's result ({want})"
+    rep.check(bad is None, "R3", f"{fi.file}::CsvPaths.next_paths collects what it yields (collect=True)", bad or f"{len(paths)} paths", K.where(fi, fi.node))
+    # collect_paths: the member collects into its own result's line spooler, and its unmatched lines are handed to the result
+    fi, paths = RM.serial_rows(idx, "collect_paths")
+    bad = None
+    for p in paths:
+        for kk, (cp, kw) in p.calls("run-args"):
+            ln = kw.get("lines")
+            if not (isinstance(ln, Residual) and ln.text == f"res{cp[2:]}.lines"):
+                bad = bad or f"member {cp} collects into {ln!r}; documented: its own result's lines (res{cp[2:]}.lines → data.csv)"
+        ran_ok = [cp for kk, cp in p.calls("run") if not dict(p.choices).get(f"run({cp}) raises")]
+        um = {k2: v for k, k2, v in p.trace if k == "set" and k2.endswith(".unmatched")}
+        for cp in ran_ok:
+            v = um.get(f"res{cp[2:]}.unmatched")
+            if not (isinstance(v, Residual) and v.text == f"{cp}.unmatched"):
+                bad = bad or f"member {cp}: result.unmatched ← {v!r}; documented: the member's own unmatched lines"
+    rep.check(bad is None, "R3", f"{fi.file}::CsvPaths.collect_paths feeds each member's own result", bad or f"{len(paths)} paths", K.where(fi, fi.node))
     r4(idx, rep)
     r5(idx, rep)
     spooler_table(idx, rep, "R1")
